@@ -42,7 +42,7 @@ def run(ctx: Ctx) -> None:
         "exception classes, abstract classes, TypeVar attributes are not generated (DESIGN §4.4)",
         "declarations in __init__.py, module-level overloads, multi-segment relative and multiple re-exports are extended features (open findings)",
     ]
-    failures = engine.search(ctx, MOD, shards=ctx.n(16, 96), examples=ctx.n(12, 50))
+    failures = engine.search(ctx, MOD, shards=ctx.n(16, 96), examples=ctx.n(24, 50))
     engine.report_failures(ctx, MOD, failures)
     engine.replay_known(ctx, MOD)
 
